@@ -1613,10 +1613,16 @@ SCAN_CLASSES = {'Auth', 'ServerAuth', 'SSHConnection', 'SSHServerConnection', 'S
 SCAN_EXEMPT = {
     ('SSHConnection', '_cleanup'): 'connection teardown: cancels the auth object before dropping it',
     ('SSHClientConnection', 'try_next_auth'): 'client side: cancels the previous attempt before replacing it',
-    ('SSHServerConnection', '_validate_x509_certificate_chain'):
-        'X.509 chains: not under contract (stores authorized_keys options of the matching entry only)',
 }
 GRANT_CALLERS = {('ServerAuth', 'send_success'), ('SSHConnection', '_finish_userauth')}
+# the functions that store restrictions run only on behalf of the current public-key attempt: their call sites
+LOOKUP_CALLERS = {
+    '_validate_client_certificate': {('SSHServerConnection', 'validate_public_key')},
+    '_validate_client_public_key': {('SSHServerConnection', 'validate_public_key')},
+    '_validate_openssh_certificate': {('SSHServerConnection', '_validate_client_certificate')},
+    '_validate_x509_certificate_chain': {('SSHServerConnection', '_validate_client_certificate')},
+}
+CONN_VALIDATE_CALLERS = {('_ServerPublicKeyAuth', '_start')}     # self._conn.validate_public_key(...)
 
 
 def extra_checks(tier, seed):
@@ -1625,7 +1631,7 @@ def extra_checks(tier, seed):
     import os
     from pyvc import extract
     covered = {tuple(s.qualname.split('.')) for s in Spec.registry if s.prop == PROP and '.' in s.qualname}
-    stray_writers, stray_callers = [], []
+    stray_writers, stray_callers, stray_lookups = [], [], []
     for path in sorted(glob.glob(os.path.join(extract.PKG, '*.py'))):
         tree = ast.parse(open(path, encoding='utf-8').read())
         for cls in [n for n in ast.walk(tree) if isinstance(n, ast.ClassDef)]:
@@ -1644,6 +1650,14 @@ def extra_checks(tier, seed):
                     if isinstance(n, ast.Call) and isinstance(n.func, ast.Attribute) and \
                             n.func.attr == 'send_userauth_success' and where not in GRANT_CALLERS:
                         stray_callers.append(f'{os.path.basename(path)}:{n.lineno} {cls.name}.{fn.name}')
+                    if isinstance(n, ast.Call) and isinstance(n.func, ast.Attribute):
+                        if n.func.attr in LOOKUP_CALLERS and where not in LOOKUP_CALLERS[n.func.attr]:
+                            stray_lookups.append(f'{os.path.basename(path)}:{n.lineno} {cls.name}.{fn.name} calls '
+                                                 f'{n.func.attr}')
+                        if n.func.attr == 'validate_public_key' and ast.unparse(n.func.value) == 'self._conn' \
+                                and where not in CONN_VALIDATE_CALLERS:
+                            stray_lookups.append(f'{os.path.basename(path)}:{n.lineno} {cls.name}.{fn.name} calls '
+                                                 f'conn.validate_public_key')
                     if isinstance(n, ast.Call) and isinstance(n.func, ast.Name) and n.func.id in ('setattr', 'vars'):
                         for a in n.args[1:2]:
                             if isinstance(a, ast.Constant) and a.value in SCAN_FIELDS:
@@ -1655,6 +1669,9 @@ def extra_checks(tier, seed):
         {'name': f'{PROP}.scan#frame(send_userauth_success-call-sites)',
          'verdict': 'proved' if not stray_callers else 'unknown',
          'reason': '; '.join(stray_callers[:5]) or None},
+        {'name': f'{PROP}.scan#frame(restriction-storing-look-ups-call-sites)',
+         'verdict': 'proved' if not stray_lookups else 'unknown',
+         'reason': '; '.join(stray_lookups[:5]) or None},
     ]
     return {'lemmas': lemmas, 'bounded': []}
 
@@ -1670,9 +1687,19 @@ ASSUMPTIONS += [
     'a value or raise; signature verification (key.verify), authorized_keys matching (SSHAuthorizedKeys.validate), '
     'certificate validation (cert.validate), SASLprep and the GSS context are abstract objects (assumed contracts)',
     'source-address matching in _validate_openssh_certificate (ip_address / any(... in network ...)) is abstract',
-    'not reached: _ServerGSSMICAuth._start/_process_token/_process_error_token (no success path), '
-    '_validate_x509_certificate_chain, channel-level enforcement of the stored restrictions '
-    '(channel.py _process_pty_req_request/_start_session: see C20), the client credential sources (agent, PKCS#11)',
+    'not reached: _ServerGSSMICAuth._start/_process_token/_process_error_token (no success path), X.509 chain '
+    'validation itself (cert.validate_chain, SSHAuthorizedKeys.validate_x509 are abstract), port / agent / X11 '
+    'forwarding permission sites (C20), the client credential sources (agent, PKCS#11)',
+    'host based: the host-key decision and the trust-set producer are used through their C04 contracts '
+    '(contracts/c04.py: validate_host_key, match_known_hosts_conn, decision, mkh_post); authorized_keys matching is '
+    'the C17 contract verified again here (SSHAuthorizedKeys.validate); match_options is an oracle',
+    'the restrictions half: pristine when an attempt starts, written only by the verified look-ups (call sites by '
+    'scan), enforced at channel.py SSHServerChannel.__init__ (environment=), _process_pty_req_request (no-pty / '
+    'permit-pty), _start_session (force-command over command= over the client request)',
+    'open (audit 6, 7): the request handed to a new auth object is not tied to the user it named beyond the '
+    'begin_auth/username test in _finish_userauth; G is an explicit clause only on _process_userauth_request and '
+    'send_userauth_success (for _finish_userauth it is the pre-at-call replaced-auth-object-is-cancelled; '
+    'send_userauth_failure is called by the auth object itself as its last action: response-is-last)',
     'B holds when an auth task first runs / when a packet is dispatched to the auth object: conn._auth is that '
     'object (_finish_userauth#post(new-attempt-is-current); dispatch gate of C06) and it was created for '
     'conn._username with pristine restrictions (pre-at-call obligations at lookup_server_auth in _finish_userauth)',
